@@ -100,10 +100,17 @@ def can_inline(fd: ast.AST) -> bool:
         if isinstance(n, ast.Call) and isinstance(n.func, ast.Name) and n.func.id in ("locals", "vars", "globals", "super"):
             return False
     rets = [n for n in _walk_local(fd) if isinstance(n, ast.Return)]
-    if len(rets) > 1:
-        return False
-    if rets and rets[0] is not body[-1]:
-        return False
+    if len(rets) > 1 or (rets and rets[0] is not body[-1]):
+        # several exits: inlinable at statement level as a `while True: ... break` block, unless an exit sits inside a loop of the
+        # helper (a break would leave that loop only) or in a `finally`
+        for lp in _walk_local(fd):
+            if isinstance(lp, (ast.For, ast.While, ast.AsyncFor)) and any(isinstance(x, ast.Return) for b in lp.body + lp.orelse for x in ast.walk(b)):
+                return False
+            if isinstance(lp, ast.Try) and any(isinstance(x, ast.Return) for b in lp.finalbody for x in ast.walk(b)):
+                return False
+            if isinstance(lp, (ast.With, ast.AsyncWith)) and any(isinstance(x, ast.Return) for b in lp.body for x in ast.walk(b)):
+                pass
+        fd._fcpv_multi = True
     return True
 
 
@@ -626,6 +633,15 @@ class Normaliser:
         pre: List[ast.stmt] = []
         if isinstance(st, (ast.Assign, ast.AnnAssign, ast.AugAssign, ast.Return, ast.Expr)) and getattr(st, "value", None) is not None:
             v = st.value
+            # `x = H(...).m().n()`: the helper call is evaluated first; inline it and keep the chain on its result
+            head, parent = v, None
+            while isinstance(head, ast.Call) and isinstance(head.func, ast.Attribute) and self._helper_of(head, fd) is None:
+                parent, head = head.func, head.func.value
+            if parent is not None and self._helper_of(head, fd) is not None:
+                stmts, result = self._inline(head, self._helper_of(head, fd), fd)
+                if stmts is not None and result is not None:
+                    parent.value = result
+                    return self._block(stmts, fd) + [st]
             h = self._helper_of(v, fd)
             if h is not None:
                 stmts, result = self._inline(v, h, fd)
@@ -894,6 +910,43 @@ class Normaliser:
         tr = _Rename(mapping, rename)
         body = [tr.visit(s) for s in body]
         result = None
+        if getattr(fdh, "_fcpv_multi", False):
+            res = "res" + sfx
+
+            class R(ast.NodeTransformer):
+                def visit_FunctionDef(self, n):
+                    return n
+
+                def visit_Lambda(self, n):
+                    return n
+
+                def visit_Return(self, n):
+                    a = ast.Assign(targets=[ast.Name(id=res, ctx=ast.Store())], value=n.value if n.value is not None else ast.Constant(value=None))
+                    b = ast.Break()
+                    ast.copy_location(a, n)
+                    ast.copy_location(b, n)
+                    return [a, b]
+            wrapper = ast.Module(body=body, type_ignores=[])
+            body = R().visit(wrapper).body
+            def terminates(ss) -> bool:
+                if not ss:
+                    return False
+                l = ss[-1]
+                if isinstance(l, (ast.Break, ast.Raise)):
+                    return True
+                if isinstance(l, ast.If):
+                    return terminates(l.body) and terminates(l.orelse)
+                if isinstance(l, ast.Try):
+                    return (terminates(l.body) or terminates(l.orelse)) and all(terminates(h_.body) for h_ in l.handlers)
+                return False
+            if not terminates(body):
+                body = body + [ast.Assign(targets=[ast.Name(id=res, ctx=ast.Store())], value=ast.Constant(value=None)), ast.Break()]
+            loop = ast.While(test=ast.Constant(value=True), body=body, orelse=[])
+            for s_ in [loop] + pre:
+                ast.copy_location(s_, call)
+            ast.fix_missing_locations(loop)
+            self.notes.append("inlined %s into %s (several exits)" % (fdh.name, fd.name))
+            return pre + [loop], ast.copy_location(ast.Name(id=res, ctx=ast.Load()), call)
         if body and isinstance(body[-1], ast.Return):
             result = body[-1].value
             body = body[:-1]
